@@ -62,6 +62,25 @@ def mutators(F):
                     continue
                 if g["locals"][1:2] and g["locals"][1].startswith("&mut") and (m.group(1), m.group(2), g["path"]) not in out:
                     out.append((m.group(1), m.group(2), g["path"]))
+        # ... and the methods of the same struct that edit the packet and then call such a recomputation (`add_topic_alias`,
+        # `remove_topic_alias` ...): only through them does the pre-state differ from what the length fields describe
+        direct = {p for (_, _, p) in out if F.fns[p].get("impl_self", "").split("<")[0] == adt}
+        if direct:
+            reach = set(direct)
+            changed = True
+            while changed:
+                changed = False
+                for p, g in F.fns.items():
+                    if p in reach or g.get("impl_self", "").split("<")[0] != adt or g.get("kind") != "AssocFn" or g.get("impl_trait"):
+                        continue
+                    if conn.fn_refs(g) & reach:
+                        reach.add(p)
+                        changed = True
+            for p in sorted(reach - direct):
+                g = F.fns[p]
+                t1 = g["locals"][1] if g.get("argc", 0) >= 1 else ""
+                if g.get("names", {}).get("1") == "self" and (t1.startswith("&mut") or t1.split("<")[0] == adt) and (m.group(1), m.group(2), p) not in out:
+                    out.append((m.group(1), m.group(2), p))
     return out
 
 
@@ -196,9 +215,11 @@ class Acct:
                 exm.interned, exm.interned_rev = ex.interned, ex.interned_rev
                 exm.no_fold = ex.no_fold
 
-                def setup_m(exx, st, fr, Sb=Sb, pb=pb):
+                byval = not F.fns[mfn]["locals"][1].startswith("&")
+
+                def setup_m(exx, st, fr, Sb=Sb, pb=pb, byval=byval):
                     for fd, v in zip(mf, Sb[3]):
-                        st.heap[(("self",), (("f", fd["i"], fd["name"]),))] = v
+                        st.heap[((fr.root(1) if byval else ("self",)), (("f", fd["i"], fd["name"]),))] = v
                     for hk, hv in pb.heap.items():
                         if hk[0] and hk[0][0] == "CS":
                             st.heap[hk] = hv
@@ -207,12 +228,23 @@ class Acct:
                     if pm.kind != "return":
                         continue
                     vals = {}
-                    for e in pm.effects:
-                        if e[0] == "write" and e[1] == ("self",) and len(e[2]) == 1 and e[2][0][0] == "f":
-                            vals[e[2][0][1]] = e[3]
-                    if not any(mf[i]["ty"].endswith("VariableByteInteger") for i in vals if i < len(mf)):
-                        continue
-                    S2 = ("agg", madt, Sb[2], tuple(vals.get(fd["i"], Sb[3][k]) for k, fd in enumerate(mf)))
+                    if byval:
+                        # `fn edit(mut self, ..) -> Self | Result<Self, _>`: the post-state is the returned struct
+                        rv = pm.ret
+                        if rv and rv[0] == "agg" and rv[1] == "std::result::Result":
+                            if rv[2] != "Ok" or not rv[3]:
+                                continue
+                            rv = rv[3][0]
+                        if not (rv and rv[0] == "agg" and rv[1] == madt and len(rv[3]) == len(mf)):
+                            continue
+                        S2 = rv
+                    else:
+                        for e in pm.effects:
+                            if e[0] == "write" and e[1] == ("self",) and len(e[2]) == 1 and e[2][0][0] == "f":
+                                vals[e[2][0][1]] = e[3]
+                        if not any(mf[i]["ty"].endswith("VariableByteInteger") for i in vals if i < len(mf)):
+                            continue
+                        S2 = ("agg", madt, Sb[2], tuple(vals.get(fd["i"], Sb[3][k]) for k, fd in enumerate(mf)))
                     heap2 = dict(pb.heap)
                     heap2.update(pm.heap)
 
